@@ -37,11 +37,15 @@ def run_package_property(run, tier, prefixes, ntraces=None, nsteps=None, sources
     n = ntraces or (320 if tier == "quick" else 3000)
     steps = nsteps or (10 if tier == "quick" else 12)
     traces = pd.generate(n, run.seed, steps, sources=sources)
-    if sources is None:
+    if not isinstance(sources, str):
         # every document type of the standard, declared on a document, saved in each packaging and reopened
         sweep = pd.generate(0, run.seed, 4, sources="retype-sweep")
         run.notes["retype_sweep_histories"] = len(sweep)
         traces = traces + sweep
+        # every sample file exported to flat XML straight after being opened (path / memory / folder), before any part was read
+        fsweep = pd.generate(0, run.seed, 3, sources="flat-sweep")
+        run.notes["flat_sweep_histories"] = len(fsweep)
+        traces = traces + fsweep
     if harvest:
         # the Document.save calls of the repository's own tests, as two-event traces
         rc, htraces, _tests, tail = pd.harvest_repo_save_calls()
